@@ -242,7 +242,16 @@ theorem no_self_extension (M : Int) (hM : 0 < M) (s : Sys) (ev : Ev) :
     | tick d => exact Or.inl rfl
     | start q => exact Or.inl rfl
     | substart q => exact Or.inl rfl
-    | finish => exact Or.inl rfl
+    | chase q => exact Or.inl rfl
+    | finish used =>
+      left; simp only [step]
+      cases s.stack with
+      | nil => rfl
+      | cons r rest =>
+        simp only
+        cases r.outer with
+        | none => rfl
+        | some m => cases used <;> rfl
     | purge z => exact Or.inr (Or.inl ⟨z, rfl, rfl⟩)
     | answer ttl =>
       left; simp only [step]; cases s.stack <;> rfl
@@ -339,6 +348,44 @@ example :
     remaining 0 (86400 * sec) (some (2 * sec)) (2 * sec) = 0 ∧
     remaining 0 (5 * sec) (some (2 * sec)) (2 * sec - 1) = 1 := by decide
 
+/-- **alias_lineage_inherited.** When a cache-level sub-query (CNAME / DNAME chase,
+running under its own forked cut) returns and its records or provenance — a bare
+rcode included — reach the deriving response (`finish true` = `lineage.inherit()`),
+the deriving request's cut is bounded and not later than the sub-query's cut nor
+than its own previous cut, and the deriving resolution's lineage now contains every
+delegation the sub-query went through. With `learned_data_bounded` (whose `a.path`
+includes that lineage) the composed answer — e.g. `alias CNAME target` + the target's
+NXDOMAIN, stored under the alias name with the alias zone's long lease and the CNAME's
+long TTL — is expired once the TARGET zone's lease ends. -/
+theorem alias_lineage_inherited (M : Int) (s : Sys) (r o : RS) (t : List RS) (m : Meta)
+    (hst : s.stack = r :: o :: t) (hfork : r.outer = some m) :
+    (∀ x, s.cut.cut = some x → ∃ c, (step M s (.finish true)).cut.cut = some c ∧ c ≤ x) ∧
+    (∀ y, m.cut = some y → ∃ c, (step M s (.finish true)).cut.cut = some c ∧ c ≤ y) ∧
+    (∃ o', (step M s (.finish true)).stack = o' :: t ∧ ∀ p ∈ r.path ++ r.used, p ∈ o'.used) := by
+  simp only [step, hst, hfork, if_true]
+  refine ⟨?_, ?_, ⟨_, rfl, ?_⟩⟩
+  · intro x hx
+    rw [hx]
+    obtain ⟨c, hc, hcx, _, _⟩ := boundCutFor_some m x s.cut.key
+    exact ⟨c, hc, hcx⟩
+  · intro y hy
+    exact boundCutFor_keeps m _ _ y ⟨y, hy, Int.le_refl _⟩
+  · intro p hp
+    simp only [List.mem_append] at hp ⊢
+    rcases hp with h | h
+    · exact Or.inl (Or.inl h)
+    · exact Or.inl (Or.inr h)
+
+-- non-vacuity: an alias in zone [9] (1 h lease, 1 h CNAME TTL) whose target lives in zone [1] (5 s lease)
+-- and is denied: the entry stored under the alias name is cut at 5 s, not at 1 h; without the
+-- inherit (`finish false`) it would be cut at 1 h
+example :
+    (run twelveHours init [.start [9, 7], .referral [9] [3600] [], .chase [1, 8], .referral [1] [5] [],
+        .answer (300 * sec), .finish true, .answer (3600 * sec)]).answers.head?.map (·.cutUntil) = some (some (5 * sec)) ∧
+    (run twelveHours init [.start [9, 7], .referral [9] [3600] [], .chase [1, 8], .referral [1] [5] [],
+        .answer (300 * sec), .finish false, .answer (3600 * sec)]).answers.head?.map (·.cutUntil) = some (some (3600 * sec)) := by
+  decide
+
 /-- **refresh_keeps_cut.** Whatever a background refresh writes back —
 positive answer, NXDOMAIN, NODATA or SERVFAIL — the replacement entry carries
 exactly the cut of the refresh's own resolution (never none when that is bounded),
@@ -373,6 +420,22 @@ example : (foldCuts {} [(some 30, 1), (none, 2), (some 10, 3), (some 20, 4)]).cu
 
 /-! ### facts regenerated from the tree -/
 
+/-- **deadlines_keep_monotonic_reading.** Leases are elapsed time: every place that
+stores or hands on a deadline (`authority.Cache.Set/SetUntil`, `minCut`/`minNonZero`,
+`ResponseMeta.BoundCutFor/Cut`, the answer cache's `cutUntil`/`stored`, the prefetch
+write-back) keeps the monotonic clock reading of the value it was given, so the
+model's single `Int` clock is the right reading of the code and a wall-clock step
+cannot move a lease (regenerated by passing a real clock reading through the compiled
+code; the `~` times of the correspondence exercise the same with a fabricated step). -/
+theorem deadlines_keep_monotonic_reading :
+    SdnsVerif.Gen.C08.mono_delegation_setuntil = true ∧
+    SdnsVerif.Gen.C08.mono_delegation_set = true ∧
+    SdnsVerif.Gen.C08.mono_mincut = true ∧
+    SdnsVerif.Gen.C08.mono_meta_cut = true ∧
+    SdnsVerif.Gen.C08.mono_entry_cut = true ∧
+    SdnsVerif.Gen.C08.mono_entry_stored = true ∧
+    SdnsVerif.Gen.C08.mono_entry_cut_after_refresh = true := by decide
+
 /-- **shape_facts_hold.** The current `resolver.go` has the shape the event
 system assumes: in `processDelegation` the single clock read
 `observedAt := time.Now()` precedes `validateDelegation` and is the only one
@@ -398,6 +461,9 @@ theorem shape_facts_hold :
     SdnsVerif.Gen.C08.shape_provisional_bounded_by_cut = true ∧
     SdnsVerif.Gen.C08.shape_cached_descent_min = true ∧
     SdnsVerif.Gen.C08.shape_seed_min = true ∧
-    SdnsVerif.Gen.C08.shape_subquery_stores_cut = true := by decide
+    SdnsVerif.Gen.C08.shape_subquery_stores_cut = true ∧
+    -- Cache.additionalAnswer: every branch that lets the chased response reach the deriving
+    -- response also calls lineage.inherit() (the `finish true` step of the model)
+    SdnsVerif.Gen.C08.shape_chase_inherits_lineage = true := by decide
 
 end SdnsVerif.Props.C08
